@@ -67,7 +67,7 @@ add("C25", "ENUM", T_ENUM + " (text collision search: equal text => equal lifted
     "Per mnemonic of rv32ima/rv64ima all register choices from a 4-register alphabet (thorough all 32), all 4096 I/S/B immediates, all shift amounts, all CSR numbers x uimm, aq/rl and fence bits, sampled (thorough all) U/J immediates: texts are grouped and any two words with the same text must have identical effects or no witness state on which they differ; mnemonic prefix and offset(base) format checked on each.",
     "A behavioural difference is only reported with a witness pre-state.", "DESIGN.md §3 C25")
 
-add("C03", "HIST", "step-by-step lock-step execution of every bounded program on the real pipeline (elf store -> parser -> deps -> emulator with Overlay(Bytes, Sparse)) against the reference RISC-V interpreter",
+add("C03", "HIST", "step-by-step lock-step execution of every bounded program on the real pipeline (elf store -> parser -> deps -> emulator with Overlay(Bytes, Sparse)) against the reference RISC-V interpreter; plus exhaustive conformance runs of a small program list through the real binary under a pseudo-terminal",
     "Every RV64IMA program of <=3 (thorough 4) instructions over a 26-word alphabet chosen to collide (overlapping stores/loads of different widths, image reads, 32-bit then 64-bit register reads, AMO/LR/SC, forward/backward/indirect/pseudo jumps) x 3 initial states supplied through the state provider, run for <=8 steps; after every step pc, all known registers, all written or supplied bytes and the step's access report are compared with the reference; Step must fail exactly off-instruction. Known finding: registers first read at 4 bytes (see known_findings.json).",
     "Trusted: harness/rvref, harness/ir. Register/memory values are 3 initial states, not all values. Self-modifying programs skipped.", "DESIGN.md §3 C03")
 add("C04", "HIST", "the C03 exploration with a request monitor on an instrumented state provider",
@@ -93,13 +93,13 @@ add("C26", "PROC", "exhaustive enumeration of generated input files / argument v
     "stdin=/dev/null runs end in the terminal-size error (regular error exit); 4 GiB address-space limit, 20 s timeout per run.", "DESIGN.md §3 C26")
 
 T_UI = "explicit-state search over input-line histories on the real UI (fresh session + replay + one more line through processCommand, stdin injected, stdout captured)"
-add("C22", "HIST", T_UI + ", sharded over worker processes",
+add("C22", "HIST", T_UI + ", sharded over worker processes; plus every line / pair of lines typed into the real binary under a pseudo-terminal",
     "BFS over line histories of depth <=3 (thorough 4) from the initial state and 5 non-initial root states on 3 programs, with per-mode line alphabets (43 disassembler, 35 emulator incl. prompt answers, 27 memory view); screen rendered at two heights after every command; oracle: no panic, command loop never fails, q pops one mode; states deduplicated by the full UI state key.",
     "Injected input always ends with a tail of valid answers (horizon). Terminal size supplied by the harness.", "DESIGN.md §3 C22")
 add("C23", "HIST", T_UI + "; BFS to closure over move commands",
     "BFS to closure over 'move N M' for every pair of line numbers (incl. out of range) on multi-block programs with blocks of different sizes; after every command the listing equals a fresh rendering of the same code and a structural model; commands leaving the code unchanged leave the listing unchanged.",
     "Marks are ignored as the property says.", "DESIGN.md §3 C23")
-add("C24", "ENUM", T_ENUM + " (captured output, lines counted)",
+add("C24", "ENUM", T_ENUM + " (captured output, lines counted); plus the real binary under a pseudo-terminal at every terminal height",
     "Listing view x every cursor x every granted height; register view x register counts x ip x value widths; memory view x layouts x cursor rows x heights; generic composites of stub children x heights; application screens at every height 7..40: no panic, lines written <= granted, fixed-height views write exactly their height.",
     "A line = a newline written (+1 for trailing text).", "DESIGN.md §3 C24")
 add("C29", "ENUM", T_ENUM,
